@@ -95,7 +95,7 @@ func (e *Env) resolve(j Job, tab Table, tok string) (Concrete, bool) {
 		return c, false
 	}
 	s.Fault = "none"
-	out := Concrete{Scn: s, Variant: c.Variant, Soft: soft || sf}
+	out := Concrete{Scn: s, Variant: c.Variant, Soft: soft || sf, FullScan: true}
 	out.Mutated = strings.ReplaceAll(m, tok, "{TOK}")
 	if !strings.Contains(m, tok) {
 		out.Mutated = m
